@@ -733,6 +733,65 @@ JIT_ARGS = [p for p in POOL if (p[0], p[1]) in {
 
 
 # --------------------------------------------------------------------------------------------------
+SIS_STRINGS = ["", "abc", "\u03b1\u03b2\u03b3", "a\u00e9\U0001F600b", "\U0001F600\U0001F600", "\u65e5\u672c\u8a9ex"]
+SIS_FUNCS = ["substring", "string->list", "string->vector", "string->bytes"]
+
+
+def string_index_sweep(ck):
+    """The built-ins that take CHARACTER indices into a string (strings.rs `bounds`: substring, string->list,
+    string->vector, string->bytes) on strings with 1-, 2-, 3- and 4-byte characters, every index and index pair
+    from 0 to length + 2 (empty ranges and positions inside a multi-byte character included).  Oracle: Python
+    string slicing by code point; an index beyond the length or a start above the end is an error; no panic."""
+    units, meta = [], []
+    for s_ in SIS_STRINGS:
+        n = len(s_)
+        for f in SIS_FUNCS:
+            for i in range(0, n + 3):
+                units.append('(%s "%s" %d)' % (f, s_, i))
+                meta.append((f, s_, i, None))
+                for j in range(0, n + 3):
+                    units.append('(%s "%s" %d %d)' % (f, s_, i, j))
+                    meta.append((f, s_, i, j))
+    # one engine per (string, function) group; a crash loses only that group
+    groups = {}
+    for k, (f, s_, i, j) in enumerate(meta):
+        groups.setdefault((f, s_), []).append(k)
+    keys = list(groups)
+    res = run_cases(ck, [[units[k] for k in groups[g]] for g in keys], fresh=True, batch=4, stall=30)
+    bad = 0
+    for g, rs in zip(keys, res):
+        for k, r in zip(groups[g], list(rs) + [None] * (len(groups[g]) - len(rs))):
+            f, s_, i, j = meta[k]
+            n = len(s_)
+            jj = n if j is None else j
+            ck.cov["evaluations"] += 1
+            r = r or {"missing": 1}
+            if i > jj or jj > n or i > n:
+                ok = "err" in r
+                want = "an error"
+            else:
+                sub = s_[i:jj]
+                want = json.dumps(sub, ensure_ascii=False)
+                if "ok" not in r:
+                    ok = False
+                else:
+                    got = r["ok"][-1] if r["ok"] else ""
+                    if f == "substring":
+                        ok = got == want
+                    elif f in ("string->list", "string->vector"):
+                        ok = [int(x, 16) for x in re.findall(r"#\\x([0-9a-fA-F]+)", got)] == [ord(c) for c in sub]
+                    else:
+                        ok = True
+            if not ok:
+                bad += 1
+                if bad <= 6:
+                    ck.failing_input("%s: expected %s, engine gave %s" % (units[k], want, json.dumps(r)[:160]),
+                                     {"search": "string-index", "units": [units[k]], "call": units[k], "expected": want,
+                                      "outcome": r, "kind": kind_of_outcome(r) if "missing" not in r else "missing"}, tag="stridx")
+    ck.cov["string_index_sweep"] = {"calls": len(units), "strings": len(SIS_STRINGS), "functions": SIS_FUNCS, "failing": bad}
+    ck.log("string index sweep: %d calls, %d failing" % (len(units), bad))
+
+
 def run(ck):
     ck.cov["trusted_base"] = [
         "Coq 8.16.1 kernel, coqc (no vm_compute / native_compute in proofs beyond `reflexivity` on closed witnesses)",
@@ -837,6 +896,8 @@ def run(ck):
                                                        (" [" + d.get("panic", "")[:160] + "]") if "panic" in d else ""), d, tag="builtin")
     ck.cov["builtin_failing_classes"] = len(fails)
 
+    # ---------------- character-indexed string built-ins: every index pair on multi-byte strings -----
+    string_index_sweep(ck)
     # ---------------- JIT-on sweep ------------------------------------------------------------------
     forms = JIT_FORMS if not quick else rng.sample(JIT_FORMS, 16) + ["(zero? x)", "(sub1 x)"]
     jcases, jmeta = [], []
